@@ -390,18 +390,31 @@ def compose_eval_rule(ctx):
     x, cx = ("x",), ("ctx",)
     ks = range(1, 8) if getattr(ctx, "tier", "quick") == "thorough" else (1, 2, 3, 4)
     configs = [(k, list(range(1, k + 1))) for k in ks] + [(3, [1, 2, 1]), (4, [1, 2, 2, 1]), (2, [1, 1])]  # the same instance used twice
-    for k, names in configs:
+    from ..peval import MList
+
+    # the parts arrive in a plain list or in an nn.ModuleList the caller built (and goes on using)
+    configs = [(k, names, "list") for k, names in configs] + [(k, list(range(1, k + 1)), "ModuleList") for k in (1, 2, 3)]
+    for k, names, how in configs:
         methods = {nm: fi.node for nm, fi in comp.methods.items()}
         init = comp.methods.get("__init__")
         obj = Obj({}, methods)
         pe = PEval(obj)
         stages_by_name = {}
         parts = [stages_by_name.setdefault(i, Stage("T%d" % i)) for i in names]
+        if how == "ModuleList":
+            parts = MList(parts)
         try:
             pe.call_method(init.node, [parts])
         except (PUndecided, PRaises) as ex:
             res.undecide("CompositeTransform.__init__ with %d parts" % k, str(ex))
             continue
+        # the composite owns its sequence of parts: what the caller does with its container afterwards (a model
+        # builder that keeps appending layers to one list and builds a flow at every depth) does not reach it
+        held = [a for a, v in obj.attrs.items() if v is parts]
+        if held:
+            res.fail(Finding("CMP-EVAL", init.module, init.qualname, init.node, "CompositeTransform.__init__ given its parts in %s stores that very object as `self.%s`: the container stays the caller's, so a later `append` / `insert` / `layers[i] = ..` / `del` on it changes what an already built composite computes (forward is no longer the parts it was given, the log-det sum and the inverse follow a different chain, the state-dict keys change)" % ("an nn.ModuleList" if how == "ModuleList" else "a list", held[0]), construct="ownership of the parts container (%s argument)" % how))
+            continue
+        parts.append(Stage("T_later"))
         for direction in ("forward", "inverse"):
             fi = comp.methods.get(direction)
             if fi is None:
